@@ -2785,6 +2785,9 @@ func (uconn *UConn) ApplyPreset(p *ClientHelloSpec) error {
 	}
 	uconn.echCtx = ech
 	hello := uconn.HandshakeState.Hello
+	// extended_master_secret is offered only if the spec has the extension
+	// (ExtendedMasterSecretExtension.writeToUConn sets it).
+	hello.Ems = false
 
 	switch len(hello.Random) {
 	case 0:
